@@ -873,7 +873,10 @@ fn explore(ctx: &Ctx) {
         if ctx.out_of_time() {
             return;
         }
-        run(Case { history: vec![op.clone()], reset: true });
+        // RESET is not part of the property statement (SET / SHOW / rejection only): the reset law is only
+        // exercised when explicitly asked for (it finds `ConfigOptions::reset` not restoring
+        // enable_aggregate_dynamic_filter_pushdown; see findings/README.md, 'observed outside the properties')
+        run(Case { history: vec![op.clone()], reset: std::env::var("VERIF_C43S_RESET").is_ok() });
         ctx.count("depth1_histories", 1);
     });
     // depth 2
